@@ -212,6 +212,21 @@ def run_job(job, acc):
                 for sh in common.SHELLS:
                     exercise(acc, wd, data, 'bundled-example', r, expect_accept=True, shells=[sh], with_chk=True,
                              origin=name)
+            # side outputs that cannot be written: still exit 0 + complete script, or exit 1 + untouched destination
+            ok_grammar = b'cmd (--color=(always|never) | sub <FILE>) [x "d"];\n'
+            for sh in common.SHELLS:
+                for flag in ('--dfa', '--regex'):
+                    for dest in ('newfile', 'existing', 'stdout'):
+                        res = run_binary(paths.COMPLGEN, ok_grammar, sh, dest, 'path', wd,
+                                         extra_args=[flag, os.path.join(wd, 'no-such-dir', 'x.dot')])
+                        acc.evals += 1
+                        acc.count('runs_unwritable_side_output')
+                        v = judge(res, sh, dest, False)
+                        if v:
+                            acc.violation({'sig': v[0], 'input_class': 'unwritable-side-output', 'build': 'release',
+                                           'shell': sh, 'dest': dest, 'input_via': 'path',
+                                           'grammar': ok_grammar.decode(), 'observed': v[1],
+                                           'origin': '%s to a directory that does not exist' % flag})
         elif kind == 'valid':
             for i in range(job[2]):
                 text, _ = valid_text(r, layout=r.random() < 0.5)
